@@ -178,6 +178,19 @@ CHECKS["C15"]["text"] += (" Third session: names RELATED to another identifier o
 CHECKS["C11"]["text"] += (" The parameter-list family includes lambdas (as initialiser, as argument, inside a function).")
 CHECKS["C20"]["text"] += (" Generic arguments include two inheritance chains of length 3 (Int <= Float <= Complex, D <= B <= A).")
 
+CHECKS["C08"]["text"] += (" Plus the RAISE MACHINE (mv/raiseseq.py): explicit enumeration of ALL function bodies over {guarded raise of E1/E2/E3, call of a function declaring E1/E2/E3, handle (ordered arm list, guarded raising call, a sequence as body of the first arm), if} "
+                          "up to 3 statements with nesting 1 (quick; the largest size keeps handles with a body) or nesting 2 and 8 arm lists (thorough: 245 k bodies) x 3 declared sets of the host, against a reference model whose state is the set of caught classes "
+                          "(extended by the arms inside the guarded statement only, restored in the arm bodies and afterwards): accepted iff every raise site is covered; every accepted body is run once per statement index with exactly that statement raising, and the printed trace "
+                          "(arm taken, arm end, done / escaped class) must equal the trace of the reference model.")
+CHECKS["C08"]["technique"] += "; plus explicit enumeration of all statement sequences within a size/nesting bound against a static and dynamic reference model of the caught-class set"
+CHECKS["C01"]["text"] += (" Family O has an inheritance matrix: 4 kinds of child constructor (none, class arguments, explicit __init__, second parent with arguments) x 3 kinds of work done by the construction of a parent listed WITHOUT arguments.")
+CHECKS["C02"]["text"] += (" Fourth round: every operator-like token as the NAME of a definition (method with / without operand, returning Bool, top-level function), and the mutation 'every operator token of a sample replaced by every other operator token' (41 tokens; quick: 60 smallest samples).")
+CHECKS["C02"]["note"] = "Judge is CPython 3.11 compile(); token boundaries come from an independent regex tokenizer. Unrepaired defect classes are delimited by the open C02 entries of known_findings.json (tags on the emitted text, the CPython message and the mutated source)."
+CHECKS["C03"]["text"] += (" S7: 20 definition values (also those the checker can give no type: unary minus, lambda, _not_, None ? e, list builder ...) x all ordered pairs and triples of 16 uses of the defined name.")
+CHECKS["C13"]["text"] += (" Project variants ':clash' put d.mamba's content under the name sub.mamba BESIDE the directory sub/ (orders of path strings and of path components differ exactly there).")
+CHECKS["C14"]["text"] += (" Comment TEXT is varied too: 11 adversarial texts (##, ###, lone #, a quote, a brace, code, a trailing backslash, #!, a tab, non-ASCII) as whole-line and trailing comment at the first, a middle and the last code line of every base.")
+CHECKS["C19"]["text"] += (" Projects of several files with a fault that surfaces while the shared context is built (argument without type, duplicate parent, import alias mismatch) in each file in turn.")
+
 
 def main():
     commits = subprocess.run(["git", "-C", "/repo", "log", "--format=%H %s"], stdout=subprocess.PIPE, text=True).stdout.splitlines()
